@@ -20,6 +20,28 @@ def _cls(name):
     return getattr(vclasses, name)
 
 
+# filler of the padding (None: 0xfe bytes).  C09 fills with bytes that read like a transaction header, a data record header
+# and a trailing transaction length, repeated: wherever a stale position lands in it, a scan finds "structure"
+PAD_PATTERN = None
+
+
+def header_like_pattern():
+    """73 bytes: transaction header (status ' ', no metadata, length 65) + data record header with a non-zero version
+    length (which no current file has: DataHeader refuses it with ValueError) + the redundant transaction length"""
+    import struct
+    th = b'\x03\xf4\x7f\x00\x00\x00\x00\x01' + struct.pack('>Q', 65) + b' ' + b'\0\0' * 3
+    dh = b'\0' * 7 + b'\x01' + b'\x03\xf4\x7f\x00\x00\x00\x00\x01' + b'\0' * 8 + b'\0' * 8 + b'\0\x01' + struct.pack('>Q', 5)
+    assert len(th) == 23 and len(dh) == 42
+    return th + dh + struct.pack('>Q', 65)
+
+
+def _pattern_pad(n, uid):
+    # (rotated differently in every record: every alignment relative to a given file position occurs)
+    rot = (uid if isinstance(uid, int) else 0) % len(PAD_PATTERN)
+    p = PAD_PATTERN[rot:] + PAD_PATTERN[:rot]
+    return (p * (n // len(p) + 1))[:n]
+
+
 def make_record(uid, refs=(), pad=0, cls='Node', extra=None):
     """refs: iterable of Ref or oid bytes"""
     f = io.BytesIO()
@@ -45,7 +67,7 @@ def make_record(uid, refs=(), pad=0, cls='Node', extra=None):
     p.persistent_id = pid
     p.dump(klass)
     state = {'id': uid, 'refs': [r if isinstance(r, Ref) else Ref(r) for r in refs],
-             'pad': b'\xfe' * pad}
+             'pad': b'\xfe' * pad if PAD_PATTERN is None else _pattern_pad(pad, uid)}
     if extra:
         state.update(extra)
     p = pickle.Pickler(f, 3)
